@@ -103,7 +103,10 @@ def check_mgs_answer(ctx, kw, scale, r, rep):
         ctx.count("E2_genset", "unsolved")
         if oracle is not None:
             k_opt = oracle[0]
-            if all(st == "kInfeasible" for st in r["statuses"].values()) and k_opt > code_range[-1]:
+            if lb <= 0 and list(r["statuses"].values()) == ["kModelEmpty"]:
+                ctx.report(f"MinGenSet(lowerbound={lb}) unsolved although a generating set exists ({oracle[1]}): the search starts with the empty model "
+                           f"k={lb if lb > 0 else 0} (status kModelEmpty, inconclusive) and stops", rep, key="mgs_lowerbound_below_one")
+            elif all(st == "kInfeasible" for st in r["statuses"].values()) and k_opt > code_range[-1]:
                 ctx.report(f"MinGenSet unsolved although a generating set of size {k_opt} exists ({oracle[1]}): k range {code_range} stops before it",
                            rep, key="mgs_range_ignores_partition_constraints" if kw.get("partition_constraints") else "mgs_upper_end_exclusive")
             elif mult > 1 and bit_cap(kw["total"]) < mult and \
@@ -179,7 +182,17 @@ def mgs_engine(ctx):
         reqs_pre.append(e1misc.mgspre_request(kw["remove_complement_values"], kw["max_multiplicity"], kw["numbers"], kw["total"]))
         pre_cases.append((kw, sorted(F(x) for x in m.numbers), rep))
         # ---- E1 per k
-        lines = [e1misc.mgs_request(m, k) for k, _ in r["caps"]]
+        # ---- E3 (partition constraints): __init__ keeps every constraint the caller passed, in order
+        ctx.count("E3_partition_constraints_kept", "cases")
+        kept = None if m.partition_constraints is None else [list(c) for c in m.partition_constraints]
+        given = None if kw.get("partition_constraints") is None else [list(c) for c in kw["partition_constraints"]]
+        if kept != given:
+            ctx.count("E3_partition_constraints_kept", "disagreements")
+            report_corr(ctx, f"E3 correspondence broken: MinGenSet.__init__ holds partition_constraints {kept}, the caller passed {given}", rep)
+        else:
+            ctx.count("E3_partition_constraints_kept", "agreements")
+        # the model is built from the CALLER's constraints: the LP must contain the rows of every one of them
+        lines = [e1misc.mgs_request(m, k, parts=kw.get("partition_constraints")) for k, _ in r["caps"]]
         outs = ctx.model.run(lines, multiline=True)
         for (k, impl), out, line in zip(r["caps"], outs, lines):
             model = lpdump.parse_model(out)
@@ -266,7 +279,7 @@ def int_truncation_probe(ctx):
     if [o.strip() for o in out] != ["I 2", "I 3", "I 2", "I 4"] or [round(2.9999999), round(2.5), round(3.5)] != [3, 2, 4]:
         ctx.report("model py_int / py_round_half_even disagree with Python int()/round(): " + repr(out), {}, concrete=False)
     if ok and sol != [3]:
-        ctx.report(f"MinGenSet(weight_type=int) turns the solver value 3 - 1e-7 into {sol} (int() truncates): sum is no longer the total",
+        ctx.report(f"MinGenSet(numbers=[3], total=3, weight_type=int) with the solver value 3 - 1e-7 (inside the integrality tolerance) returns {sol}, expected [3]",
                    {"class": "MinGenSet", "args": describe(kw), "injected": "get_values: 3 -> 3 - 1e-7"}, key="mgs_int_truncation")
 
 
@@ -286,6 +299,12 @@ def witness_probes(ctx):
         if r["ok"] and len(r["m"].get_solution()) != 1:
             ctx.report(f"MinGenSet([1,2], total 1, multiplicity 2) returns {r['m'].get_solution()} although {{1}} generates both numbers", {"class": "MinGenSet", "args": describe(kw)},
                        key="mgs_pi_bounded_by_total")
+    # fixed corpus: two partition constraints over the SAME value set with different multiplicities (both must be kept)
+    for parts in ([[1, 2, 2], [1, 1, 1, 2]], [[1, 1, 1, 2], [1, 2, 2]], [[2, 2, 1], [2, 1, 1, 1], [1, 2, 2]]):
+        kw = dict(numbers=[1, 2], total=5, weight_type=int, max_multiplicity=1, lowerbound=1, remove_complement_values=True, partition_constraints=parts)
+        r = run_mgs(ctx, kw)
+        ctx.count("probe_witness", "cases")
+        check_mgs_answer(ctx, kw, 1, r, {"class": "MinGenSet", "args": describe(kw), "witness": "optimum [1,1,1,2]: every constraint must be respected"})
     # fixed corpus: a number above max(total, max_multiplicity), fractional and integral (pi bound = max(total, numbers), a068bcc)
     for nums, total, mult, wt in (([3.75, 1.25], 1.25, 3, float), ([7.5], 2.5, 3, float), ([6, 3], 3, 2, int)):
         kw = dict(numbers=nums, total=total, weight_type=wt, max_multiplicity=mult, lowerbound=1, remove_complement_values=True)
